@@ -905,6 +905,20 @@ impl World {
         };
         let (ln, rn) = (build(&lt), build(&rt));
         let (l, r) = (&ln[0], &rn[0]);
+        // by-value operations: which allocation comes back (std: max returns the second operand on ties, min and
+        // clamp the first)
+        let twin = if cyclic { None } else { Some(build(&lt)) };
+        let by_value: [(&str, bool); 6] = [
+            ("Ord::max(l, r)", Cc::ptr_eq(&Ord::max(l.clone(), r.clone()), if model == Ordering::Greater { l } else { r })),
+            ("Ord::min(l, r)", Cc::ptr_eq(&Ord::min(l.clone(), r.clone()), if model == Ordering::Greater { r } else { l })),
+            ("Ord::max(r, l)", Cc::ptr_eq(&Ord::max(r.clone(), l.clone()), if model == Ordering::Less { r } else { l })),
+            ("Ord::max(l, twin of l)", twin.as_ref().map_or(true, |t| Cc::ptr_eq(&Ord::max(l.clone(), t[0].clone()), &t[0]))),
+            ("Ord::min(l, twin of l)", twin.as_ref().map_or(true, |t| Cc::ptr_eq(&Ord::min(l.clone(), t[0].clone()), l))),
+            ("l.clamp(twin, twin)", twin.as_ref().map_or(true, |t| Cc::ptr_eq(&l.clone().clamp(t[0].clone(), t[0].clone()), l))),
+        ];
+        if let Some(t) = twin {
+            drop(t);
+        }
         let got: [(&str, bool); 12] = [
             ("l == r", (l == r) == (model == Ordering::Equal)),
             ("l != r", (l != r) == (model != Ordering::Equal)),
@@ -930,7 +944,7 @@ impl World {
         }
         self.sync();
         self.stats.borrow_mut().bump("linked_structures_compared");
-        if let Some((what, _)) = got.iter().find(|g| !g.1) {
+        if let Some((what, _)) = got.iter().chain(by_value.iter()).find(|g| !g.1) {
             self.fail(
                 "O-FWD.linked",
                 format!("`{}` on Cc<Link> disagrees with the comparison of the values (left: {} nodes{}, right: chain of {} that {}; the values compare {:?})", what, m,
